@@ -46,6 +46,15 @@ inductive OpX
   | newTxDefault (v : Tx)
   /-- `CMutableTxIn(<outpoint object> | None, script, seq)` -/
   | newTxInFrom (prevout : Option Target) (script : Bytes) (seq : Nat)
+  /-- `CTxIn(<outpoint object> | <default COutPoint()>, script, seq)`: an immutable class keeps an
+      immutable copy of what it is given (`COutPoint.from_outpoint(prevout)`), never the caller's object (D23) -/
+  | newCTxInFrom (prevout : Option Target) (script : Bytes) (seq : Nat)
+  /-- `w.vtxinwit[i] = CTxInWitness(CScriptWitness(st))` (`i = some _`) / `w.vtxinwit.append(…)` (`i = none`)
+      for a `CTxWitness` object `w`: `vtxinwit` of an immutable-class object is a tuple whatever sequence the
+      constructor was given (`tuple(vtxinwit)`, D23) -/
+  | witListEdit (t : Target) (i : Option Nat) (st : WitStack)
+  /-- `iw.scriptWitness.stack[j] = b` / `iw.scriptWitness.stack.append(b)` for a `CTxInWitness` object `iw` -/
+  | stackEdit (t : Target) (j : Option Nat) (b : Bytes)
 deriving Repr
 
 /-! ### cells -/
@@ -444,6 +453,37 @@ def stepX (s : XStore) : OpX → XStore × Out
           let a := allocCell p.1 ⟨.txin script seq, [p.2]⟩
           (s.bind a.1 (some a.2), .created)
         else (s.skip, .err .valueerr)
+  | .newCTxInFrom prevout script seq =>
+      match prevout.map s.target with
+      | some none => (s.skip, .badRef)
+      | some (some rp) =>
+        if refKind s.cells rp ≠ some 0 then (s.skip, .na)
+        else if seq ≤ 0xffffffff then
+          match eval s.cells rp with
+          | some (.outpoint o) =>
+            -- `COutPoint.from_outpoint`: a mutable argument is re-validated by the constructor of the copy
+            if !rp.isMut || validOutPoint o then
+              (s.bind s.cells (some (.val (.txin { prevout := o, scriptSig := script, nSequence := seq }))), .created)
+            else (s.skip, .err .valueerr)
+          | _ => (s.skip, .badRef)
+        else (s.skip, .err .valueerr)
+      | none =>
+        if seq ≤ 0xffffffff then
+          (s.bind s.cells (some (.val (.txin { prevout := ⟨List.replicate 32 0, 0xffffffff⟩, scriptSig := script,
+                                               nSequence := seq }))), .created)
+        else (s.skip, .err .valueerr)
+  | .witListEdit t i _ =>
+      match s.target t with
+      | none => (s.skip, .badRef)
+      | some r =>
+        if refKind s.cells r ≠ some 4 then (s.skip, .na)
+        else (s.skip, .err (if i.isSome then typeError else attributeError))
+  | .stackEdit t j _ =>
+      match s.target t with
+      | none => (s.skip, .badRef)
+      | some r =>
+        if refKind s.cells r ≠ some 3 then (s.skip, .na)
+        else (s.skip, .err (if j.isSome then typeError else attributeError))
 
 def runX : XStore → List OpX → XStore × List Out
   | s, [] => (s, [])
